@@ -129,6 +129,18 @@ func probeSystem(is *issues, variant string) (rd, wr []pageLine, info map[string
 			cell[a] |= uint32(v) << (8 * k)
 		}
 	}
+	// a read that the System's OWN three arrays do not explain (a marker that is no class, an index beyond the array) is
+	// reported and the address is dropped from the further passes
+	for a := uint32(0); a < N; a++ {
+		if !ok[a] || cls[a] == clsHWIO {
+			continue
+		}
+		arr := arrOf(s, int(cls[a]))
+		if arr == nil || int(cell[a]) >= len(arr) {
+			is.add("system_probe", "system", "rd", a, fmt.Sprintf("read is not backed by this System's own ROM/SRAM/WRAM arrays (class %d, index %#x)", cls[a], cell[a]))
+			ok[a] = false
+		}
+	}
 	// sanity: the decoded cell really is what the address reads (exactness of the probe)
 	fillArrays(s, func(c int, i int) byte { return byte(i*7 + c*13 + i>>9) })
 	for a := uint32(0); a < N; a++ {
